@@ -114,7 +114,7 @@ fn backends_for(class: u8) -> Vec<u8> {
     }
 }
 
-pub fn add_grids(p: &mut Plan, q: bool) {
+pub fn add_grids(p: &mut Plan, q: bool, boundary_words: bool) {
     let lmax = 100usize;
     let aligns: Vec<usize> = if q { vec![0, 1, 15, 31] } else { (0..32).collect() };
     let mut tasks: Vec<TaskFn> = Vec::new();
@@ -198,8 +198,42 @@ pub fn add_grids(p: &mut Plan, q: bool) {
         }
     }
     p.phases.push(Phase { label: format!("S3: all pairs of offending positions, {} lengths × 4×4 offending bytes", lens.len()), backend: Backend::Native, tasks });
+    // every pair of byte values at adjacent positions (carries / borrows between neighbouring
+    // lanes of the word-at-a-time tricks, lane shuffles of the vector scanners)
+    let mut tasks: Vec<TaskFn> = Vec::new();
+    let pair_lens: Vec<usize> = if q { vec![8, 16, 32, 40] } else { vec![8, 9, 16, 17, 24, 32, 33, 40, 64, 72] };
+    for class in 0..3u8 {
+        for backend in backends_for(class) {
+            for &l in &pair_lens {
+                tasks.push(Box::new(move |ck: &mut Checker| {
+                    let filler = fillers(class)[0];
+                    let mut buf = vec![filler; l];
+                    for pos in 0..l - 1 {
+                        for x in 0..=255u8 {
+                            for y in 0..=255u8 {
+                                buf[pos] = x;
+                                buf[pos + 1] = y;
+                                check(ck, backend, class, &buf, Place::EndFlush);
+                            }
+                        }
+                        buf[pos] = filler;
+                        buf[pos + 1] = filler;
+                        if ck.full() {
+                            return;
+                        }
+                    }
+                }));
+            }
+        }
+    }
+    p.phases.push(Phase { label: format!("S3: all 65536 byte pairs at every adjacent position pair, lengths {:?}", pair_lens), backend: Backend::Native, tasks });
+    p.bounds.push(format!("S3 adjacent pairs: every (x, y) in 256x256 at positions (i, i+1) for every i, lengths {:?}, all backends and classes", pair_lens));
+    if !boundary_words {
+        p.bounds.push(format!("S3: backends swar/avx2/sse4.2/dispatch/neon(emulated) x 3 classes x length 0..={} x position x 256 values x 2 fillers x placements end-flush, start-flush, mid-buffer alignments {:?}; pairs of offending positions; adjacent byte pairs", lmax, aligns));
+        return;
+    }
     // boundary alphabet ^8 on 8-byte buffers: drives the word-at-a-time borrow tricks
-    let sigma: Vec<u8> = if q { vec![0x00, 0x09, 0x1f, 0x20, 0x21, 0x7e, 0x7f, 0x80] } else { vec![0x00, 0x08, 0x09, 0x0a, 0x0d, 0x1f, 0x20, 0x21, 0x3a, 0x7e, 0x7f, 0x80, 0x81, 0xc3, 0xfe, 0xff] };
+    let sigma: Vec<u8> = if q { vec![0x00, 0x09, 0x1f, 0x20, 0x21, 0x7e, 0x7f, 0x80, 0xfe, 0xff] } else { vec![0x00, 0x08, 0x09, 0x0a, 0x0d, 0x1f, 0x20, 0x21, 0x3a, 0x7e, 0x7f, 0x80, 0x81, 0xc3, 0xfe, 0xff] };
     let mut tasks: Vec<TaskFn> = Vec::new();
     for class in 0..3u8 {
         for backend in [B_SWAR, B_NEON] {
